@@ -467,7 +467,7 @@ fn one_seg_history(lo: i64, hi: i64, len: usize, profile: u32, life: i64, rng: &
             // profile 1: a hot spot that receives most of the values (long bucket lists)
             let (a, b) = if profile == 1 && rng.chance(3, 4) { (hot.0, hot.0) } else { pick(rng) };
             let id = i as i64 + 1;
-            let e = t + rng.range(-1, life);
+            let e = match rng.below(60) { 0 => i32::MAX as i64, 1 => i32::MIN as i64, _ => t + rng.range(-1, life) };
             let op = Op::new("insert", &[a, b, id, e]);
             rec.push(op.clone()); if flush { eprintln!("@op {}", op.text()); } c.apply(&op); n_ops += 1;
             vals.push((a, b, id, e));
@@ -591,7 +591,8 @@ pub fn fuzz_layouts(out: &mut Out, seed: u64, millis: u64) -> (u64, bool) {
                     let e = rng.range(0, 61);
                     let base: i64 = 1i64 << e;
                     let len = match rng.below(7) { 0 => base, 1 => base + 1, 2 => (base - 1).max(1), 3 => base + rng.range(0, base - 1), 4 => rng.range(1, 70), 5 => base + 2, _ => (base - 2).max(1) };
-                    let lo = match rng.below(5) { 0 => 0, 1 => -(len / 2), 2 => rng.range(-(1i64 << 61), 1i64 << 61), 3 => -len, _ => rng.range(-100, 100) };
+                    // (offsets anywhere, including domains that end at the greatest / begin at the least coordinate)
+                    let lo = match rng.below(7) { 0 => 0, 1 => -(len / 2), 2 => rng.range(-(1i64 << 61), 1i64 << 61), 3 => -len, 4 => i64::MAX - (len - 1), 5 => i64::MIN, _ => rng.range(-100, 100) };
                     let hi = match lo.checked_add(len - 1) { Some(h) => h, None => continue };
                     if (hi as i128) - (lo as i128) + 1 >= (1i128 << 62) { continue; }
                     let res = std::panic::catch_unwind(|| {
